@@ -204,6 +204,7 @@ var Pool = []PoolEntry{
 	{"NFuncs", reflect.TypeFor[NFuncs](), "unsupported"}, {"NComplex", reflect.TypeFor[NComplex](), "unsupported"},
 	{"HasChan", reflect.TypeFor[HasChan](), "unsupported"}, {"HasFunc", reflect.TypeFor[HasFunc](), "unsupported"}, {"HasComplex", reflect.TypeFor[HasComplex](), "unsupported"},
 	{"HasIntMap", reflect.TypeFor[HasIntMap](), "unsupported"}, {"DeepBad", reflect.TypeFor[DeepBad](), "unsupported"},
+	{"time.Duration", reflect.TypeFor[time.Duration](), "scalar"}, {"time.Month", reflect.TypeFor[time.Month](), "scalar"},
 	{"time.Time", reflect.TypeFor[time.Time](), "std"}, {"slog.Level", reflect.TypeFor[slog.Level](), "std"},
 	{"big.Int", reflect.TypeFor[big.Int](), "stdptrrecv"}, {"big.Rat", reflect.TypeFor[big.Rat](), "stdptrrecv"}, {"big.Float", reflect.TypeFor[big.Float](), "stdptrrecv"},
 }
